@@ -6,17 +6,18 @@ UNITS = ["sock_close / pipe_close / pipe_stop / pipe_fini / ctx_fini / sock_fini
 RULE = "Protocol skeletons that leave operations pending (blocked senders / receivers, in-flight transport transfers, queued messages) and then close: every pending user operation must be completed, exactly once, no lock left held, teardown in reaper order."
 BOUNDS = "those of the skeleton families; teardown order pipe_close*, sock_close, ctx_fini, pipe_stop*, pipe_fini*, sock_fini"
 OUTSIDE = "sock_shutdown's waits, the reaper / poller / task threads, handle tables (nni_sock_find etc.), endpoint close, 'always returns' as liveness over real threads: NOT decided by this technique (CBMC cannot encode preemptive threads over nng's intrusive lists)"
-ASSUMPTIONS = ["as in C04-C09"]
+GROUP_WITNESS = False
+ASSUMPTIONS = ["open findings F6b (non-blocking BUS send refused) and F7 (non-blocking respondent send refused) are excluded by -DKF_BUS_NONBLOCK_EAGAIN / -DKF_RESP_NONBLOCK_EAGAIN: they are C09/C07/C15 matters; the refused send is checked to fail cleanly", "as in C04-C09"]
 
 
 def queries(tier):
     def pred(sk, q):
         return sk.endswith(" Z") and bool(__import__("re").search(r",1\)", sk))
-    qs = _cross.pick(tier, pred, 14 if tier == "quick" else 100000)
+    qs = _cross.pick(tier, pred, 14 if tier == "quick" else 100000, bus_excl=True)
     def pred2(sk, q):
         return sk.endswith(" Z")
     names = set(q.name for q in qs)
-    for q in _cross.pick(tier, pred2, 10 if tier == "quick" else 100000):
+    for q in _cross.pick(tier, pred2, 10 if tier == "quick" else 100000, bus_excl=True):
         if q.name not in names:
             qs.append(q)
     return qs
